@@ -9,13 +9,16 @@ C07 — crash consistency.  Two small executable objects (no Mathlib):
         (`_do_walk_if_needed`, event.py:204), or a write to an unrelated tag;
       * a provider write on a side, by the engine (create/upload/mkdir/rename/delete issued by the sync manager) or by a user,
         with the content version it PUT there, if any;
-      * "event `idx` of side `s` is handled": `_process_event` returned, i.e. the event's state effect has been committed
-        (event.py:311-314 commits at the end of every processed event), or the provider's root filter dropped it.
+      * "event `idx` of side `s` is handled": `_process_event` returned and the entry the event touched is no longer dirty and
+        HAS a stored row (event.py:311-314 commits at the end of every processed event; the harness reads the entry's row id and
+        checks the row exists), or the event needs no row (root filter dropped it / no entry / trash entry).
     `check` replays a log through `step` and rejects it when the write ordering the property rests on is broken:
       (a) a cursor write may only store a cursor all of whose events are handled (or covered by a completed walk) — unless the
           walk marker of that side is not stored yet, in which case a restart walks everything again (event.py:123);
       (b) a storage row may record content `X` as synced on a side (`sync_hash`) only after a provider write put `X` on that side;
-      (c) row ids: create allocates a fresh id, update hits an existing row (both storage backends raise otherwise).
+      (c) row ids: create allocates a fresh id, update hits an existing row (both storage backends raise otherwise);
+      (d) an event only counts as handled if the row holding its state effect IS in storage at that moment (an entry that exists
+          only in memory is lost by a crash while the cursor has moved past its event).
     The state `St` the replay computes is the abstract storage (rows with their claims, stored cursors, walk markers) plus the
     history summary needed to judge it (`puts`, `handled`, `base`).  `Consistent` is "storage never claims unreflected work".
     A crash truncates the log: before a storage effect, or right after an engine provider effect.
@@ -43,7 +46,9 @@ inductive Eff where
   | walkWrite (s : Side)                           -- storage create/update of the side's walk marker
   | otherWrite                                     -- a storage write to any other tag
   | providerWrite (s : Side) (engine : Bool) (put : Option Nat)   -- successful mutating provider call; `put` = content it left there
-  | eventApplied (s : Side) (idx : Nat)            -- event handled: state effect committed, or dropped by the root filter
+  | eventApplied (s : Side) (idx : Nat) (row : Option Nat)
+      -- event handled: its state effect is committed in stored row `row` (`none`: it needs no row — dropped by the root filter,
+      -- ignored, or its entry is trash)
   deriving Repr, DecidableEq
 
 /-- a numbered effect (the number is its position in the run) -/
@@ -116,6 +121,8 @@ def violation (st : St) : Eff → Option String
     else none
   | .cursorWrite s c =>
     if (st.side s).walked && !(st.side s).covered c then some "cursor-ahead-of-committed-events" else none
+  | .eventApplied _ _ (some eid) =>
+    if !st.hasRow eid then some "event-handled-without-committed-row" else none
   | _ => none
 
 /-- the effect applied to the abstract state -/
@@ -127,7 +134,7 @@ def effect (st : St) : Eff → St
   | .walkWrite s => st.setSide s { st.side s with walked := true, base := max (st.side s).base ((st.side s).cursor.getD 0) }
   | .otherWrite => st
   | .providerWrite s _ put => st.setSide s { st.side s with puts := put.toList ++ (st.side s).puts }
-  | .eventApplied s i => st.setSide s { st.side s with handled := i :: (st.side s).handled }
+  | .eventApplied s i _ => st.setSide s { st.side s with handled := i :: (st.side s).handled }
 
 /-- one effect against the abstract state; `error` = the write ordering is broken -/
 def step (st : St) (e : Eff) : Except String St :=
